@@ -178,7 +178,7 @@ class C08(Prop):
         "fetch_from_msa_modes_agree", "strdealign_spec", "std_gapchars_ok", "get_from_msa_ss_buffer_safe",
         "sq_grow_covers", "sq_growto_covers", "sq_object_grow_keeps_invariant", "sq_object_digitize_textize", "sq_revcomp_markup",
         "sq_object_copy_spec", "std_case_insensitive", "custom_history_case_insensitive", "custom_history_wfdegen",
-        "sq_checksum_detects_substitution", "sq_checksum_steps_injective", "msa_guess_both_forms", "msa_mixed_probe_regenerated",
+        "sq_checksum_detects_substitution", "sq_checksum_steps_injective", "msa_guess_both_forms", "msa_mixed_probe_regenerated", "createdsq_allocation_dsqlen", "sq_object_append_spec",
     )]
     claimed = True
     technique = ("Lean 4 proof: table theorems closed by `decide` over the whole regenerated tables (vs a hand-written IUPAC statement), "
@@ -312,8 +312,8 @@ class C08(Prop):
             for n in (0, 1, 2, 254, 255, 256, 257, 511, 512):
                 for dig in (False, True):
                     for add in (False, True):
-                        scripts = (["t", "d", "g", "g"], ["r", "r"], ["t", "c:digital", "t"], ["c:text", "d", "r"], ["to:%d" % (n + 1), "t", "d"], ["g", "t", "to:%d" % (2 * n + 7), "d", "t"]) if dig else \
-                                  (["d", "t", "g", "g"], ["r", "d"], ["d", "r", "t"], ["c:digital", "t", "c:text"], ["c:text", "d", "c:digital"], ["to:%d" % n, "d", "to:%d" % (n + 1), "t"], ["g", "d", "d", "t", "t"])
+                        scripts = (["a:%d" % (258 - n if n < 258 else 3), "t", "g"], ["t", "a:300", "d"], ["t", "d", "g", "g"], ["r", "r"], ["t", "c:digital", "t"], ["c:text", "d", "r"], ["to:%d" % (n + 1), "t", "d"], ["g", "t", "to:%d" % (2 * n + 7), "d", "t"]) if dig else \
+                                  (["a:%d" % (257 - n if n < 257 else 3), "d", "g"], ["d", "a:300", "t"], ["d", "t", "g", "g"], ["r", "d"], ["d", "r", "t"], ["c:digital", "t", "c:text"], ["c:text", "d", "c:digital"], ["to:%d" % n, "d", "to:%d" % (n + 1), "t"], ["g", "d", "d", "t", "t"])
                         for sc in scripts:
                             ops.append(self.obj_op(r6, pools, K, Kp, name in ("dna", "rna"), n=n, script=sc, dig=dig, add=add, ss=True, nxr=r6.choice([0, 1, 2])))
             out.append({"name": "sqobj-boundaries-%s" % name, "ops": ops, "sticky": 1})
@@ -322,6 +322,14 @@ class C08(Prop):
             "sqobj init=text via=from hex=%s xr=%s script=c:digital" % (hx(b"ACGT"), hx(b"1234")),
             "sqobj init=text via=add hex=%s xr=%s,%s script=c:digital,t" % (hx(b"ACGTNN"), hx(b"123456"), hx(b"<<..>>")),
             "sqobj init=text via=from hex=%s ss=%s xr=%s script=c:digital" % (hx(b"ACGT"), hx(b"<..>"), hx(b"1234"))]})
+        # regression (fixed in fb9db3f): esl_sq_CreateDigitalFrom(..., n = -1 "unknown", ...) set end = W = L = -1
+        out.append({"name": "createdigitalfrom-unknown-length", "sticky": 1, "ops": ["abc type=dna",
+            "sqobj init=digital via=from len=unknown hex=00010203 script=-", "sqobj init=digital via=from len=unknown hex=- script=t",
+            "sqobj init=digital via=from len=unknown hex=0001020304 ss=%s script=r,t" % hx(b"<...>")]})
+        # a NUL byte ends the C string handed to Digitize / CreateDsq
+        for name in STD:
+            out.append({"name": "nul-inside-%s" % name, "sticky": 1, "ops": ["abc type=%s" % name] +
+                        ["%s hex=%s" % (o_, h_) for o_ in ("digitize", "createdsq") for h_ in ("00", "4100", "410043", "41430047", "2100ff")] + ["dsqlen", "textize"]})
         gops = []
         for c in range(1, 256):
             gops.append("sqguess hex=%s" % hx(bytes([c]) * 12))
@@ -625,7 +633,8 @@ class C08(Prop):
             elif r < 0.52: tok = "r"
             elif r < 0.62: tok = "g"
             elif r < 0.74: tok = "to:%d" % rng.choice([0, n, n + 1, n + 2, n - 1 if n else 0, 254, 255, 256, 257, 2 * n + 3, rng.randrange(0, 1200)])
-            elif r < 0.87: tok = "c:digital"
+            elif r < 0.80: tok = "a:%d" % rng.choice([1, 2, 3, 255, 256, 257, 300, rng.randrange(1, 600)])
+            elif r < 0.90: tok = "c:digital"
             else: tok = "c:text"
             if tok == "c:digital" and not mode_dig and xr and not ss and not COPY_XR_NOSS: tok = "c:text"
             if tok == "d" and valid: mode_dig = True
@@ -638,6 +647,7 @@ class C08(Prop):
             toks.append(tok)
         if script is not None: toks = script
         op = "sqobj init=%s via=%s hex=%s" % ("digital" if dig else "text", "add" if add else "from", hx(res))
+        if dig and not add and rng.random() < 0.3: op += " len=unknown"
         if has_ss: op += " ss=%s" % hx(mk())
         if nxr: op += " xr=%s" % ",".join(hx(mk()) for _ in range(nxr))
         return op + " script=%s" % (",".join(toks) if toks else "-")
@@ -803,6 +813,13 @@ class C08(Prop):
         ops += self.score_ops(rng, K, Kp, list(range(K)) + [Kp - 3])
         ops += self.vec_ops(rng, K, Kp, False, pools)
         if rng.random() < 0.4: ops += [self.obj_op(rng, pools, K, Kp, False) for _ in range(rng.randrange(1, 4))]
+        if rng.random() < 0.3:
+            # esl_sq_CreateFrom -> Digitize -> [ReverseComplement: eslEINCOMPAT, no complement table] -> Textize on a custom alphabet
+            for _ in range(rng.randrange(1, 3)):
+                p2 = dict(pools); p2["ignored"] = b""
+                s_ = self.rand_string(rng, p2, self.rand_len(rng, False), False)
+                extra = (" ss=%s" % hx(bytes(rng.choice(b"<>.()[]{}_-,:AaBb") for _ in range(len(s_))))) if rng.random() < 0.4 else ""
+                ops.append("sqroundtrip hex=%s rc=%d%s%s" % (hx(s_), int(rng.random() < 0.25), extra, " retry=1" if rng.random() < 0.4 else ""))
         return {"name": "custom%d" % idx, "ops": ops, "sticky": 1}
 
     def std_case(self, rng, hb, idx):
